@@ -77,7 +77,8 @@ fn ev(op: &str, tbl: &str, s: &str, k: i64, ns: &str) -> serde_json::Map<String,
 pub fn intern_drive(seed: u64, episodes: usize, len: usize, big: usize, out: &str) {
     let mut f = std::io::BufWriter::new(std::fs::File::create(out).expect("create out"));
     let mut master = Rng::new(seed);
-    let strs = ["a", "b", "c", "x1", "http://e/1", "", "xml", "space", "id", "http://www.w3.org/XML/1998/namespace", "é", "A"];
+    let strs = ["a", "b", "c", "x1", "http://e/1", "", "xml", "space", "id", "http://www.w3.org/XML/1998/namespace", "é", "A",
+                " a", "a ", " a ", "a\n", "\ta", " ", "a b", "Xml", "HTTP://E/1", "http://e/1/"];
     for ep in 0..episodes {
         let mut r = master.fork();
         let mut x = Xot::new();
@@ -99,7 +100,7 @@ pub fn intern_drive(seed: u64, episodes: usize, len: usize, big: usize, out: &st
         for step in 0..nsteps {
             let roll = if ep == 0 && big > 0 { [90, 90, 90, 92, 92, 93][step % 6] } else { r.below(100) };
             let s = *r.pick(&strs);
-            let nss = *r.pick(&["", "u1", "http://e/1", "http://www.w3.org/XML/1998/namespace"]);
+            let nss = *r.pick(&["", "u1", "http://e/1", "http://www.w3.org/XML/1998/namespace", " u1", "u1 ", "U1"]);
             let mut m;
             if roll < 22 {
                 m = ev("add", "ns", s, -1, "");
